@@ -1,140 +1,50 @@
 /-
-Model/ReaderRun.lean — reader.go `(*reader).run` (with `initialize` and `read`) as a total labelled transition system:
-the reconnect / backoff loop with every error class.  Core Lean only.
+Model/ReaderRun.lean — `reader.go (*Reader).run / subscribe / unsubscribe`: which fetchers the per-generation
+unsubscribe function stops (core Lean only).
 
-State = the variables of `run` (offset, attempt, errcount, the Conn's offset, where in the loop we are) plus what
-has been pushed into `r.msgs` (messages and errors).  Events = the outcomes of the blocking calls, chosen by the
-environment: `sleep(ctx, backoff(…))`, `initialize`, one `read` (a whole fetch round, Model/MessageSetReader.readAll,
-or the ways it can fail).  `rstep` is total: an event that cannot occur in a state leaves it unchanged.
-Model/ReaderLoop.lean (`onAnswer`, `simulate`) is the executable instance used by the oracle; this file is the one
-the general theorems (`Props/C02` §3) are about.
+Go ↔ Lean
+* `r.subscribe(gen.Assignments)` → `r.start`: cancel the previous fetchers (`r.cancel()`), install a new cancel func,
+  start the generation's fetchers                                       ↔ `subscribe` (generation index = count so far)
+* `gen.Start(func(ctx){ <-ctx.Done() / <-r.stctx.Done(); r.unsubscribe(cancel) })`: the function may run at ANY later
+  moment — when the generation had already ended at `Start` it is a loose goroutine (D8)   ↔ `unsub g`
+* `capture = true`: the repaired code (/repo 88525ef): the function cancels the cancel func captured right after
+  `subscribe`; `false`: the original code, it calls whatever `r.cancel` is when it runs.
 -/
-import KafkaVerif.Model.MessageSetReader
-import KafkaVerif.Spec.Layout
-
-namespace KV.C02
-
-inductive Phase
-  | top        -- at the head of the outer `for attempt …` loop (no connection)
-  | reading    -- inside `readLoop` with an open connection
-  | stopped    -- run has returned
-  deriving DecidableEq, Repr
-
-structure RCfg where
-  maxAttempts : Nat := 3
-  offsetOutOfRangeError : Bool := false
+namespace KV.ReaderRun
 
 structure RR where
-  phase : Phase := .top
-  offset : Int                 -- `offset`: LastOffset (-1) / FirstOffset (-2) / absolute
-  attempt : Nat := 0
-  errcount : Nat := 0
-  slept : Bool := false        -- the backoff sleep of the current iteration is over
-  connOff : Int := 0           -- conn.offset (meaningful while reading)
-  msgs : List Rec := []        -- messages pushed into r.msgs, in order
-  errors : List Nat := []      -- errors pushed into r.msgs (Kafka error code, 0 = other)
-  start : Option Int := none   -- ghost: the absolute offset the first successful initialize resolved
-  deriving Repr
+  gens : Nat := 0                    -- generations subscribed so far; the current one is gens-1
+  alive : List Bool := []            -- per generation: its fetchers are running
+  unsubRan : List Bool := []         -- per generation: its unsubscribe function has run
+  deriving Repr, DecidableEq
 
 inductive REv
-  /-- `sleep(ctx, backoff(attempt | errcount, …))` returned true -/
-  | sleepOk
-  /-- … returned false: the context was cancelled -/
-  | sleepCancel
-  /-- `initialize` failed: dial error, readOffsets error, or (`oor`) Seek answered OffsetOutOfRange -/
-  | initFail (oor : Bool)
-  /-- `initialize` succeeded against a partition whose first / last offsets are these -/
-  | initOk (first last : Int)
-  /-- `read`: a fetch round that decoded `d`, left the Conn at `off'` and ended with `oc` -/
-  | data (d : List Rec) (off' : Int) (oc : Outcome)
-  /-- `read`: the connection died after `d` had been sent on -/
-  | cutAfter (d : List Rec)
-  /-- `read`: partition error `code`; for OffsetOutOfRange (1) also what `readOffsets` then says (none = it failed) -/
-  | kerr (code : Nat) (offsets : Option (Int × Int))
-  /-- `read`: io.ErrNoProgress / any other non-Kafka error (time-out, reset, …) -/
-  | ioErr
-  /-- `read`: context.Canceled (sendMessage lost against ctx.Done) -/
-  | ctxCanceled
-  /-- `read`: errUnknownCodec -/
-  | unknownCodec
+  | subscribe
+  | unsub (g : Nat)
   deriving Repr
 
-/-- offset the connection is seeked to by `initialize` -/
-def resolve (offset first last : Int) : Int :=
-  if offset = -2 then first else if offset = -1 then last else if offset < first then first else offset
+def setAt (l : List Bool) (i : Nat) (v : Bool) : List Bool := l.set i v
 
-def pushMsgs (s : RR) (d : List Rec) : RR :=
-  { s with msgs := s.msgs ++ d, offset := match d.getLast? with | some r => r.1 + 1 | none => s.offset }
+def rstep (capture : Bool) (s : RR) : REv → Option RR
+  | .subscribe =>
+    -- r.start: cancel the previous generation's fetchers, start the new ones
+    let alive' := if s.gens = 0 then s.alive else setAt s.alive (s.gens - 1) false
+    some { gens := s.gens + 1, alive := alive' ++ [true], unsubRan := s.unsubRan ++ [false] }
+  | .unsub g =>
+    if g < s.gens ∧ s.unsubRan.getD g true = false then
+      -- repaired: cancel generation g's own fetchers; original: cancel whatever r.cancel is now (the current generation's)
+      let target := if capture then g else s.gens - 1
+      some { s with alive := setAt s.alive target false, unsubRan := setAt s.unsubRan g true }
+    else none
 
-/-- `break readLoop`: back to the head of the outer loop; its post statement increments `attempt` -/
-def toTop (s : RR) : RR := { s with phase := .top, attempt := s.attempt + 1, slept := false }
+def rrun (capture : Bool) : RR → List REv → Option RR
+  | s, [] => some s
+  | s, e :: es => match rstep capture s e with
+    | some s' => rrun capture s' es
+    | none => none
 
-/-- next iteration of `readLoop` -/
-def again (s : RR) (errcount : Nat) : RR := { s with errcount := errcount, slept := false }
+inductive RReachable (capture : Bool) : RR → Prop
+  | init : RReachable capture {}
+  | step {s s' : RR} (e : REv) : RReachable capture s → rstep capture s e = some s' → RReachable capture s'
 
-/-- `read` came back with a partition error: the `case errors.Is(err, …)` clauses of `readLoop` -/
-def onKerr (s : RR) : Nat → Option (Int × Int) → RR
-  | 6, _ => toTop s                         -- NotLeaderForPartition: conn.Close(); break readLoop
-  | 3, _ => toTop s                         -- UnknownTopicOrPartition: conn.Close(); break readLoop
-  | 7, _ => again s 0                       -- RequestTimedOut: retry
-  | 1, none => toTop s                      -- OffsetOutOfRange and readOffsets failed: conn.Close(); break readLoop
-  | 1, some (first, last) =>                -- OffsetOutOfRange
-    if s.offset < first then again { s with offset := first, connOff := first } 0
-    else if s.offset < last then again s 0
-    else again s (s.errcount + 1)
-  | code, _ => again { s with errors := s.errors ++ [code] } (s.errcount + 1)   -- any other Kafka error: sendError, retry
-
-def rstep (cfg : RCfg) (s : RR) (e : REv) : RR :=
-  match s.phase with
-  | .stopped => s
-  | .top =>
-    if s.attempt ≠ 0 ∧ !s.slept then
-      match e with
-      | .sleepOk => { s with slept := true }
-      | .sleepCancel => { s with phase := .stopped }
-      | _ => s
-    else
-      match e with
-      | .initFail true =>
-        if cfg.offsetOutOfRangeError then { s with phase := .stopped, errors := s.errors ++ [1] }
-        else { s with attempt := s.attempt + 1, slept := false }
-      | .initFail false =>
-        { s with attempt := s.attempt + 1, slept := false,
-                 errors := if s.attempt ≥ cfg.maxAttempts then s.errors ++ [0] else s.errors }
-      | .initOk first last =>
-        let off := resolve s.offset first last
-        if off > last then
-          -- Seek refuses: the same as `initFail true`
-          if cfg.offsetOutOfRangeError then { s with phase := .stopped, errors := s.errors ++ [1] }
-          else { s with attempt := s.attempt + 1, slept := false }
-        else
-          { s with phase := .reading, attempt := 0, errcount := 0, slept := false, offset := off, connOff := off,
-                   start := match s.start with | some x => some x | none => some off }
-      | _ => s
-  | .reading =>
-    if !s.slept then
-      match e with
-      | .sleepOk => { s with slept := true }
-      | .sleepCancel => { s with phase := .stopped }      -- conn.Close(); return
-      | _ => s
-    else
-      match e with
-      | .data d off' oc =>
-        let s1 := { pushMsgs s d with connOff := off' }
-        match oc with
-        | .eof => again s1 0
-        | .timedOut => again s1 0
-        | .unexpectedEOF => toTop s1
-        | .desync => { s1 with phase := .stopped }          -- the process would be gone
-      | .cutAfter d => toTop (pushMsgs s d)
-      | .kerr code offs => onKerr s code offs
-      | .ioErr => toTop s
-      | .ctxCanceled => { s with phase := .stopped }
-      | .unknownCodec => toTop { s with errors := s.errors ++ [0] }
-      | _ => s
-
-def rrun (cfg : RCfg) : RR → List REv → RR
-  | s, [] => s
-  | s, e :: es => rrun cfg (rstep cfg s e) es
-
-end KV.C02
+end KV.ReaderRun
